@@ -326,3 +326,126 @@ theorem splitText_string_piece (pre body post : List Nat)
   exact (splitLoopA_ret_prefix post _ none).subset hmem
 
 end Sv
+
+namespace Sv
+
+/-! ### a one-line comment does not become part of the substituted text (IEEE 1800-2017 22.5.1) -/
+
+/-- inside a one-line comment every byte other than the line end is dropped -/
+theorem splitLoopA_incomment (t : List Nat) (after : Option Nat) : ∀ (s : SplitSt), s.isLeadingWs = false → s.isComment = true → 10 ∉ t →
+    (splitLoopA s t after).isLeadingWs = false ∧ (splitLoopA s t after).isComment = true ∧
+    (splitLoopA s t after).acc = s.acc ∧ (splitLoopA s t after).isString = s.isString := by
+  induction t with
+  | nil => intro s h1 h2 _; exact ⟨h1, h2, rfl, rfl⟩
+  | cons c rest ih =>
+    intro s h1 h2 h10
+    have c10 : (c == 10) = false := by simp at h10 ⊢; exact fun h => h10.1 h.symm
+    have hs : ∀ nxt, (splitStep s c nxt).isLeadingWs = false ∧ (splitStep s c nxt).isComment = true ∧
+        (splitStep s c nxt).acc = s.acc ∧ (splitStep s c nxt).isString = s.isString := by
+      intro nxt
+      unfold splitStep SplitSt.acc
+      simp only [h1, h2, c10, Bool.false_and, Bool.false_eq_true, if_false, if_true, Bool.true_and]
+      repeat' split
+      all_goals simp_all
+    simp only [splitLoopA]
+    obtain ⟨a1, a2, a3, a4⟩ := hs (match rest.head? with | some d => some d | none => after)
+    obtain ⟨b1, b2, b3, b4⟩ := ih _ a1 a2 (fun h => h10 (List.mem_cons_of_mem _ h))
+    exact ⟨b1, b2, by rw [b3, a3], by rw [b4, a4]⟩
+
+theorem splitLoopA_acc (t : List Nat) (after : Option Nat) : ∀ (s : SplitSt), s.isLeadingWs = false → s.isComment = false →
+    NoSlashSlash t → (t.getLast? = some 47 → after ≠ some 47) →
+    (splitLoopA s t after).acc = s.acc ++ t ∧ (splitLoopA s t after).isLeadingWs = false ∧ (splitLoopA s t after).isComment = false := by
+  induction t with
+  | nil => intro s h1 h2 _ _; exact ⟨by simp [splitLoopA], h1, h2⟩
+  | cons c rest ih =>
+    intro s h1 h2 hn hlast
+    have hne : ¬ (c = 47 ∧ (match rest.head? with | some d => some d | none => after) = some 47) := by
+      cases rest with
+      | nil =>
+        simp only [List.head?_nil]
+        intro ⟨hc, ha⟩
+        exact hlast (by simp [hc]) ha
+      | cons d r => simpa using hn.1
+    obtain ⟨a1, a2, a3⟩ := splitStep_acc s c _ (.inl h1) h2 hne
+    simp only [splitLoopA]
+    have hl2 : rest.getLast? = some 47 → after ≠ some 47 := by
+      intro h
+      apply hlast
+      cases rest with
+      | nil => simp at h
+      | cons d r => simpa [List.getLast?_cons_cons] using h
+    obtain ⟨b1, b2, b3⟩ := ih _ a2 a3 hn.2 hl2
+    exact ⟨by rw [b1, a1]; simp, b2, b3⟩
+
+/-- **a one-line comment in macro text is dropped, its line end is kept**: for `pre ++ "//" ++ comment ++ "\n" ++ post` with `pre`, `post` free of
+    quotes and slashes (`pre` non-empty, not starting with white space / backslash) and no line end inside the comment, the pieces of
+    `split_text` concatenate to `pre ++ "\n" ++ post` — and (repair D19) the piece before the comment ends where the comment begins. -/
+theorem splitText_drops_line_comment (pre cm post : List Nat)
+    (hp0 : ∀ c, pre.head? = some c → (c != 92 && !isAsciiWhitespace c) = true) (hpne : pre ≠ [])
+    (hp34 : 34 ∉ pre) (hp47 : 47 ∉ pre) (hc10 : 10 ∉ cm) (hq47 : 47 ∉ post) :
+    (splitText (pre ++ ([47, 47] ++ cm ++ [10]) ++ post)).flatten = pre ++ [10] ++ post := by
+  unfold splitText
+  rw [splitLoop_eq_A]
+  have hflat : ∀ s : SplitSt, (s.ret ++ [s.x]).flatten = s.acc := by intro s; simp [SplitSt.acc]
+  rw [hflat]
+  obtain ⟨c, pr, rfl⟩ : ∃ c pr, pre = c :: pr := by cases pre with | nil => exact absurd rfl hpne | cons c pr => exact ⟨c, pr, rfl⟩
+  have hc := hp0 c rfl
+  have c34 : (c == 34) = false := by simp at hp34 ⊢; exact fun h => hp34.1 h.symm
+  have c47 : (c == 47) = false := by simp at hp47 ⊢; exact fun h => hp47.1 h.symm
+  rw [List.append_assoc, splitLoopA_append]
+  simp only [List.cons_append, List.nil_append, List.head?_cons]
+  -- pre: plain text, nothing lost
+  have hnopre : NoSlashSlash (c :: pr) := by
+    have : ∀ l : List Nat, 47 ∉ l → NoSlashSlash l := by
+      intro l
+      induction l with
+      | nil => intro _; trivial
+      | cons a l ih => intro h; exact ⟨fun ⟨h1, _⟩ => h (by simp [h1]), ih (fun hm => h (List.mem_cons_of_mem _ hm))⟩
+    exact this _ hp47
+  have hfirst := splitStep_acc {} c (match pr.head? with | some d => some d | none => some 47) (.inr hc) rfl (by simp [show c ≠ 47 from fun h => by simp [h] at c47])
+  simp only [splitLoopA]
+  obtain ⟨f1, f2, f3⟩ := hfirst
+  have hrest := splitLoopA_acc pr (some 47) _ f2 f3 hnopre.2 (fun h => absurd (List.mem_of_mem_getLast? h) (fun hm => hp47 (List.mem_cons_of_mem _ hm)))
+  obtain ⟨g1, g2, g3⟩ := hrest
+  have hstr := (splitLoopA_plain pr (some 47) _ f2 f3 (by unfold splitStep; simp [hc, c34, c47]; repeat' split <;> simp_all)
+    (fun h => hp34 (List.mem_cons_of_mem _ h)) (fun h => hp47 (List.mem_cons_of_mem _ h))).2.2.1
+  generalize splitLoopA (splitStep {} c (match pr.head? with | some d => some d | none => some 47)) pr (some 47) = s1 at g1 g2 g3 hstr
+  -- the first slash starts the comment
+  have hstart : ∀ nxt, nxt = some 47 → (splitStep s1 47 nxt).isLeadingWs = false ∧ (splitStep s1 47 nxt).isComment = true ∧
+      (splitStep s1 47 nxt).acc = s1.acc := by
+    intro nxt hn
+    unfold splitStep SplitSt.acc
+    subst hn
+    simp [g2, g3, hstr, isIdentByte]
+  simp only [List.head?_cons]
+  obtain ⟨h1, h2, h3⟩ := hstart (some 47) rfl
+  generalize splitStep s1 47 (some 47) = s2 at h1 h2 h3
+  -- the second slash is dropped
+  have hin1 := splitLoopA_incomment [47] (match (cm ++ [10] ++ post).head? with | some d => some d | none => none) s2 h1 h2 (by simp)
+  simp only [splitLoopA, List.head?_nil] at hin1
+  obtain ⟨j1, j2, j3, _⟩ := hin1
+  generalize splitStep s2 47 (match (cm ++ [10] ++ post).head? with | some d => some d | none => none) = s2' at j1 j2 j3
+  -- the comment text is dropped
+  rw [show cm ++ [10] ++ post = cm ++ (10 :: post) by simp, splitLoopA_append]
+  simp only [List.head?_cons]
+  obtain ⟨i1, i2, i3, _⟩ := splitLoopA_incomment cm (some 10) s2' j1 j2 hc10
+  generalize splitLoopA s2' cm (some 10) = s3 at i1 i2 i3
+  -- the line end closes the comment and is kept
+  simp only [splitLoopA]
+  have hnl : ∀ nxt, (splitStep s3 10 nxt).acc = s3.acc ++ [10] ∧ (splitStep s3 10 nxt).isLeadingWs = false ∧ (splitStep s3 10 nxt).isComment = false := by
+    intro nxt
+    unfold splitStep SplitSt.acc
+    simp [i1, i2, isIdentByte]
+  obtain ⟨k1, k2, k3⟩ := hnl (match post.head? with | some d => some d | none => none)
+  have hnopost : NoSlashSlash post := by
+    have : ∀ l : List Nat, 47 ∉ l → NoSlashSlash l := by
+      intro l
+      induction l with
+      | nil => intro _; trivial
+      | cons a l ih => intro h; exact ⟨fun ⟨h1, _⟩ => h (by simp [h1]), ih (fun hm => h (List.mem_cons_of_mem _ hm))⟩
+    exact this _ hq47
+  obtain ⟨m1, _, _⟩ := splitLoopA_acc post none _ k2 k3 hnopost (fun h => absurd (List.mem_of_mem_getLast? h) hq47)
+  rw [m1, k1, i3, j3, h3, g1, f1]
+  simp [SplitSt.acc]
+
+end Sv
